@@ -74,6 +74,29 @@ int main(void)
 		case 5: lzma_lzma_preset(&ol, preset); r = lzma_microlzma_encoder(&s, &ol); break;
 		}
 		if (r != LZMA_OK) { printf("%d -\n", (int)r); fflush(stdout); lzma_end(&s); if (have_f) lzma_filters_free(filters, NULL); continue; }
+		if (((cfg >> 29) & 1) && (kind == 0 || kind == 1 || kind == 4)) {
+			// re-initialisation history: use the encoder for a while (never finishing it cleanly),
+			// then initialise it again on the same lzma_stream without lzma_end; the real run follows
+			alarm(kind == 1 ? 10 : 60);
+			unsigned k = 1 + rnd() % 17, style = rnd() % 3; size_t pip = 0; uint8_t tmp[4096];
+			for (unsigned c = 0; c < k; c++) {
+				size_t il = style == 0 ? (n - pip) : rnd() % 3000; if (il > n - pip) il = n - pip;
+				size_t ol = style == 0 ? 13 : rnd() % 4096;
+				uint8_t *ib = malloc(il ? il : 1); memcpy(ib, in + pip, il);
+				s.next_in = ib; s.avail_in = il; s.next_out = tmp; s.avail_out = ol;
+				lzma_ret pr = lzma_code(&s, style == 0 ? LZMA_FINISH : (style == 1 && c == k - 1 ? LZMA_FULL_FLUSH : LZMA_RUN));
+				pip += il - s.avail_in; free(ib);
+				if (pr != LZMA_OK && pr != LZMA_BUF_ERROR) break;
+			}
+			if (rnd() % 3 == 0) usleep(rnd() % 400);
+			if (kind == 1 && rnd() % 4 == 0) { lzma_mt m2 = mt; m2.threads = 1 + (mt.threads % 6); r = lzma_stream_encoder_mt(&s, &m2); if (r == LZMA_OK) { /* and back */ } }
+			switch (kind) {
+			case 0: r = lzma_easy_encoder(&s, preset, check); break;
+			case 1: r = lzma_stream_encoder_mt(&s, &mt); break;
+			case 4: r = lzma_stream_encoder(&s, filters, check); break;
+			}
+			if (r != LZMA_OK) { printf("%d -\n", (int)r); fflush(stdout); lzma_end(&s); alarm(0); if (have_f) lzma_filters_free(filters, NULL); continue; }
+		}
 		size_t ip = 0, op = 0; unsigned calls = 0; int finishing = 0, stall = 0; int prog_ok = 1; uint64_t last_pi = 0, last_po = 0;
 		unsigned abort_after = (kind == 1 && (cfg >> 28) & 1) ? 1 + (unsigned)(seed % 23) : 0;
 		alarm(kind == 1 ? 10 : 60);
